@@ -12,7 +12,9 @@ let cls_table = [
   "RuntimeError", C_RuntimeError; "RecursionError", C_RecursionError; "StopIteration", C_StopIteration;
   "UserError", C_UserError; "UserKeyError", C_UserKeyError; "UserBase", C_UserBase; "UserExit", C_UserExit;
   "BaseExceptionGroup", C_BaseExceptionGroup; "ExceptionGroup", C_ExceptionGroup; "UserGroup", C_UserGroup;
-  "UserBaseGroup", C_UserBaseGroup; "UserProxy", C_UserProxy; "UserMeta", C_UserMeta ]
+  "UserBaseGroup", C_UserBaseGroup; "UserProxy", C_UserProxy; "UserMeta", C_UserMeta;
+  "TwinKeyError", C_TwinKeyError; "TwinValueError", C_TwinValueError; "TwinExit", C_TwinExit;
+  "ShadowValueError", C_ShadowValueError ]
 
 let get_cls x = let s = get_sym x in
   try List.assoc s cls_table with Not_found -> bad ("cls: " ^ s)
